@@ -559,7 +559,9 @@ func ruleC11_3(c *Ctx) {
 	// both digits come from the same byte b[i], and go to columns 3i and 3i+1 with i the range index over b
 	okPos := false
 	dPos := ""
-	if okHi && okLo && len(fr.Headers()) == 2 {
+	_ = fr
+	// the two loops (fill, digits) may live in the closure itself or in a helper it calls: look at the frame of the store
+	if okHi && okLo && len(hi.ev.Loops) == 1 && len(hi.ev.Loops[0].Frame.Headers()) == 2 {
 		xb1 := stripConv(hi.val.Args[1]).Args[0]
 		xb2 := stripConv(lo.val.Args[1]).Args[0]
 		// the loop over b
